@@ -171,6 +171,8 @@ def handleMeta (op : String) (args : List String) : Option String :=
     some <| match cfgOfArgs kvs {} with
     | none => "bad-arg"
     | some c => joinWith "\t" ("ok" :: (validateSingleLine c.proj c.tool).map encode)
+  | "urifmt", [s] => some <| "ok\t" ++ boolStr (uriFormatMatch s.toList)
+  | "spdxname", [s] => some <| "ok\t" ++ encode ((Gen.licenseFallbackNames.lookup s).getD "<none>")
   | "canon", [s] => some <| "ok\t" ++ encode (canonicalizeName s)
   | "authorsplit", [s] =>
     some <| match authorMatch s.toList with
